@@ -56,20 +56,33 @@ def check_month_tables(ctx, rule, civil=True, tz=True):
     prefix = [sum(GREG[:m - 1]) for m in range(1, 13)]      # days before month m in a common year
     d, t = M['days_per_month']
     d2, o = M['month_offsets']
+    o_full = o
+    if o and all(isinstance(r, list) for r in o):
+        o = o[0]                 # row for common years (the leap row is checked below)
     if civil:
         ctx.check(len(t) == 13, rule, '%s has 1+12 entries' % d['name'], d, 'wrong extent', construct='extent:days_per_month')
         for m in range(1, 13):
             ctx.check(len(t) > m and t[m] == GREG[m - 1], rule, '%s[%d] == %d (Gregorian month length)' % (d['name'], m, GREG[m - 1]), d,
                       'month %d has %s days in this table; the Gregorian calendar has %d' % (m, t[m] if len(t) > m else '?', GREG[m - 1]),
                       construct='days_per_month[%d]' % m)
-        for m in range(1, 13):
-            ctx.check(len(o) > m and o[m] == prefix[m - 1], rule, '%s[%d] == %d (days before month %d)' % (d2['name'], m, prefix[m - 1], m), d2,
-                      'get_yearday\'s offset for month %d is %s; the month lengths sum to %d' % (m, o[m] if len(o) > m else '?', prefix[m - 1]),
-                      construct='month_offsets[%d]' % m)
-        for m in range(1, 12):
-            ctx.check(o[m + 1] - o[m] == t[m], rule, '%s[%d]-[%d] == %s[%d]' % (d2['name'], m + 1, m, d['name'], m), d2,
-                      'successive difference of the yearday offsets disagrees with days_per_month for month %d' % m,
-                      construct='diff:month_offsets[%d]' % m)
+        rows = [(o, 0)]
+        if o_full is not o:
+            # one row per kind of year: common, leap
+            rows = [(o_full[0], 0)] + ([(o_full[1], 1)] if len(o_full) > 1 else [])
+            ctx.check(len(o_full) == 2, rule, '%s has one row for common and one for leap years' % d2['name'], d2, 'wrong extent',
+                      construct='extent:month_offsets')
+        for (row, leap) in rows:
+            tag = '[%d]' % leap if len(rows) > 1 else ''
+            for m in range(1, 13):
+                want = prefix[m - 1] + (1 if leap and m > 2 else 0)
+                ctx.check(len(row) > m and row[m] == want, rule, '%s%s[%d] == %d (days before month %d)' % (d2['name'], tag, m, want, m), d2,
+                          'get_yearday\'s offset for month %d is %s; the month lengths sum to %d' % (m, row[m] if len(row) > m else '?', want),
+                          construct='month_offsets%s[%d]' % (tag, m))
+            for m in range(1, 12):
+                ctx.check(len(row) > m + 1 and row[m + 1] - row[m] == t[m] + (1 if leap and m == 2 else 0), rule,
+                          '%s%s[%d]-[%d] == %s[%d]' % (d2['name'], tag, m + 1, m, d['name'], m), d2,
+                          'successive difference of the yearday offsets disagrees with days_per_month for month %d' % m,
+                          construct='diff:month_offsets%s[%d]' % (tag, m))
         d3, w = M['weekday_offsets']
         for m in range(1, 13):
             want = (prefix[m - 1] - (1 if m > 2 else 0)) % 7
